@@ -139,6 +139,27 @@ def check_musig(case, ctx):
     raw = sig.serialize()
     require(ec.schnorr_verify(ec.xonly(Q), msg, raw), "musig/aggregate_signature_invalid_under_bip340",
             f"key={ec.xonly(Q).hex()} msg={msg.hex()} sig={raw.hex()}")
+    # a second session on the SAME MuSigTapScript object (other message, nonce pairs swapped, the other
+    # tweak mode): nothing may be carried over from the first one
+    import hashlib
+
+    msg2 = hashlib.sha256(msg).digest()
+    root2 = b"" if root else hashlib.sha256(b"r" + msg).digest()
+    privs = [fast_priv(s) for s in case["secrets"]]
+    ks2 = [(k2, k1) for k1, k2 in (tuple(k) for k in case["nonces"])]
+    if sum(k[0] for k in ks2) % N == 0 or sum(k[1] for k in ks2) % N == 0:
+        return
+    sums2 = musig.nonce_sums([(pt(ec.mul(a)), pt(ec.mul(b))) for a, b in ks2])
+    r2 = musig.compute_r(sums2, msg2)
+    if r2.x is None:
+        return
+    parts2 = [musig.sign(p, musig.compute_k(kk, sums2, msg2), r2, msg2, root2) for p, kk in zip(privs, ks2)]
+    st_, sig2 = attempt(musig.get_signature, sum(parts2), r2, msg2, root2)
+    require(st_ == "ok", "musig/second_session_on_same_object_rejected", f"{type(sig2).__name__}: {sig2}")
+    _, Q2, _ = agg_key(musig, root2)
+    require(ec.schnorr_verify(ec.xonly(Q2), msg2, sig2.serialize()),
+            "musig/second_session_signature_invalid_under_bip340")
+    ctx.label("second_session")
 
 
 def check_incomplete(case, ctx):
